@@ -29,3 +29,5 @@ func VerifReset() {
 	Stdout = os.Stdout
 }
 
+// VerifCallerMode reads the caller-lookup switches.
+func VerifCallerMode() (enable, fast bool) { return enableCaller, fastCaller }
